@@ -40,6 +40,17 @@ CLAIMED["C12"] = dict(
          "cell by cell through an index map that the same run validates against the rotated geometry.",
     ref="DESIGN.md section 2 / C12",
 )
+CLAIMED["C13"] = dict(
+    text="Inductive step(s): from a constructor state with symbolic geometry, every transformation (translate, scale with "
+         "scalar / per-axis factors of any sign, rotate90) of Region, Mesh (with subregions) and Field is executed with symbolic "
+         "arguments in both forms; after each step the representation invariant, the documented affine image (independent box "
+         "oracle), return identity, in-place == copy attribute by attribute and original-untouched are unsat queries; degenerate "
+         "(zero factor, decided by a fork on the symbolic factor) and malformed arguments must be refused in both forms with the "
+         "object unchanged. 2-step (thorough: 3-step) histories mix the forms to show the invariant is closed.",
+    ref="DESIGN.md section 2 / C13",
+    note=NOTE_COMMON + "; meshes WITH subregions use concrete scale factors (several signs/anisotropies) because the constructor's "
+         "lattice checks on a symbolically scaled box are beyond z3's nonlinear reach; regions and meshes without subregions use symbolic factors",
+)
 PENDING_REASON = "check not built yet in this round (planned: DESIGN.md section 2); not claimed until it runs green"
 NA = {}
 
